@@ -1,7 +1,9 @@
 (* Model of /repo/v23/path.go (Parts, Dir, IsAbs, HasPrefixPath, ContainsPath,
    HasSuffixPath, Clean, CleanDot, CleanPath, Rel, JoinNoClean), of
    Pkglint.Abs (pkglint.go) and of Pkgsrc.Relpath (pkgsrc.go), as the code is
-   after the fix: commits 514c6db and 9dfe426.
+   after the fix: commits 514c6db and 9dfe426 and the four C19 repairs of path.go
+   (root spellings in CleanDot/CleanPath, "./" as a prefix, ContainsPath tries every
+   component start, HasSuffixPath compares parts).
 
    One Gallina definition per Go function, same case order.  Go's library
    functions path.Clean and filepath.Rel (Unix) are written out as explicit
@@ -136,41 +138,54 @@ Fixpoint parts_prefix (prefixParts ps : list str) : bool :=
     end
   end.
 
+(* len(parts) == 1 && parts[0] == "." *)
+Definition is_dot_parts (ps : list str) : bool :=
+  match ps with [x] => str_eqb x dotstr | _ => false end.
+
 Definition has_prefix_path (p prefix : str) : bool :=
   if text_prefix p prefix then true
   else if is_empty prefix then false
   else if str_eqb prefix dotstr then negb (is_abs p)
   else if quick_reject p prefix then false
+  else if is_dot_parts (parts prefix) then negb (is_abs p)    (* "./" and "./." mean "." *)
   else parts_prefix (parts prefix) (parts p).
 
 (* ---------- Path.ContainsPath ---------- *)
-(* n = iterations left (limit - i + 1), rest = p[i:], prev = p[i-1] *)
-Fixpoint contains_loop (n : nat) (first : bool) (prev : N) (rest sub : str) : bool :=
-  match n with
-  | O => false
-  | S n' =>
-    if (first || (prev =? slash)) && has_prefix_path rest sub then true
-    else match rest with
-         | [] => false                  (* i = len(p) was the last possible index *)
-         | c :: r => contains_loop n' false c r sub
-         end
-  end.
+(* for i := 0; i <= len(p); i++: rest = p[i:], prev = p[i-1], first = (i == 0);
+   atComponent := i == 0 || p[i-1] == '/' && (i == len(p) || p[i] != '/') *)
+Fixpoint contains_loop (first : bool) (prev : N) (rest sub : str) : bool :=
+  let at_component :=
+    first || ((prev =? slash) && match rest with [] => true | c :: _ => negb (c =? slash) end) in
+  if at_component && has_prefix_path rest sub then true
+  else match rest with
+       | [] => false                    (* i = len(p) was the last index *)
+       | c :: r => contains_loop false c r sub
+       end.
 
 Definition contains_path (p sub : str) : bool :=
-  (* limit := len(p) - len(sub); for i := 0; i <= limit; i++ *)
-  (if (length sub <=? length p)%nat
-   then contains_loop (S (length p - length sub)) true 0 p sub
-   else false)
-  || str_eqb sub dotstr.
+  contains_loop true 0 p sub || str_eqb sub dotstr.
 
 (* ---------- Path.HasSuffixPath ---------- *)
-Definition has_suffix_path (p suffix : str) : bool :=
-  (* hasSuffix(p, suffix) && (len(p) == len(suffix) || p[len(p)-len(suffix)-1] == '/') *)
+Definition starts_slash (s : str) : bool :=
+  match s with c :: _ => c =? slash | [] => false end.
+
+(* hasSuffix(p, suffix) && (len(p) == len(suffix) || p[len(p)-len(suffix)-1] == '/' && suffix[0] != '/') *)
+Definition text_suffix (p suffix : str) : bool :=
   match strip_prefix (rev suffix) (rev p) with
   | Some [] => true
-  | Some (c :: _) => c =? slash
+  | Some (c :: _) => (c =? slash) && negb (starts_slash suffix)
   | None => false
   end.
+
+Definition has_suffix_path (p suffix : str) : bool :=
+  if is_empty p || is_empty suffix then str_eqb p suffix
+  else if text_suffix p suffix then true
+  else
+    let ps := parts p in
+    let ss := parts suffix in
+    if is_dot_parts ss then false
+    else if (length ps <? length ss)%nat then false
+    else parts_prefix ss (skipn (length ps - length ss) ps).   (* parts[offset+i] != suffixPart *)
 
 (* ---------- path.Clean (Go standard library) ---------- *)
 (* State of the lazybuf, element-wise: dd = number of leading ".." elements
@@ -205,7 +220,10 @@ Fixpoint has_double_slash (p : str) : bool :=
 
 Definition clean_dot (p : str) : str :=
   if negb (existsb (N.eqb dot) p) && negb (has_double_slash p) then p
-  else join_slash (parts p).
+  else match parts p with
+       | [[]] => [slash]                 (* a spelling of the root *)
+       | ps => join_slash ps
+       end.
 
 (* ---------- Path.CleanPath ---------- *)
 Definition is_dotdot (s : str) : bool := str_eqb s dotdot.
@@ -225,6 +243,7 @@ Definition clean_path (p : str) : str :=
   let ps := parts p in
   match firstn 2 ps ++ clean_path_loop (skipn 2 ps) with (* i starts at 2 *)
   | [] => dotstr
+  | [[]] => [slash]
   | l => join_slash l
   end.
 
@@ -255,9 +274,6 @@ Fixpoint rel_strip (b t : list str) : option (list str * list str) :=
     | y :: t' => if str_eqb x y then rel_strip b' t' else Some (b, t)
     end
   end.
-
-Definition starts_slash (s : str) : bool :=
-  match s with c :: _ => c =? slash | [] => false end.
 
 Definition rel_go (basepath targpath : str) : relres :=
   let base := clean basepath in
